@@ -90,6 +90,22 @@ Fixpoint serial_trace (ms : list msg) (p : port) : option (list sev) :=
       end
   end.
 
+(* Time certainly spent asleep from here up to the next write (or the end of the trace). *)
+Fixpoint quiet (evs : list sev) : N :=
+  match evs with
+  | [] => 0
+  | EvWrite _ :: _ => 0
+  | EvSleep ms :: t => ms + quiet t
+  | EvRead _ :: t => quiet t
+  end.
+(* For every write of the trace: the bytes it delivered and the time slept before the next write. *)
+Fixpoint write_gaps (evs : list sev) : list (list N * N) :=
+  match evs with
+  | [] => []
+  | EvWrite bs :: t => (bs, quiet t) :: write_gaps t
+  | _ :: t => write_gaps t
+  end.
+
 (* ---------- the ODK bridge ---------- *)
 Inductive oerr : Type :=
 | OComm (e : rerr)      (* OdkError::Communication *)
